@@ -52,9 +52,21 @@ class Unpicklable(object):
         return 7
 
 
+# one cell OBJECT shared by all rows / records (a constant status text, a non-None fill value ...): whatever writes the
+# rows to a chunk or spill file must write each row so that it can be read back on its own
+SHARED = ('shared cell', 'same object in every row')
+
+
+def _rows(cfg):
+    rows = C.rows('g', cfg['n'])
+    if cfg.get('shared'):
+        rows = [(r[0], r[1], SHARED) for r in rows]
+    return rows
+
+
 def _tables(cfg, fail):
     n = cfg['n']
-    rows = C.rows('g', n)
+    rows = _rows(cfg)
     up = cfg.get('unpick')
     if up is not None and 1 <= up <= n:
         # the failure happens while a chunk is being WRITTEN (not while the source is read)
@@ -153,7 +165,7 @@ class Harness(object):
         petl.config.sort_buffersize = cfg['b'] if cfg.get('cfgdefault') else 100000
         name = cfg['op']
         if name.startswith('fromdicts'):
-            rows = [dict(zip(C.HEADERS['g'], r)) for r in C.rows('g', cfg['n'])]
+            rows = [dict(zip(C.HEADERS['g'], r)) for r in _rows(cfg)]
             fail = cfg.get('fail')
 
             def gen():
@@ -395,6 +407,11 @@ def _cfgs(tier):
     for name in (() if quick else ('join', 'distinct', 'aggregate(multi)', 'mergesort', 'complement', 'unique')):
         out.append({'op': name, 'n': 2, 'b': 1, 'cache': True, 'fail': None, 'k': 3, 'warm': 'cold',
                     'bound': 2, 'alphabet': 'opennext', 'cfgdefault': False})
+    # rows sharing one cell object: passes served from the chunk / spill files must read every row back
+    for name in ('sort', 'sort(x)', 'fromdicts(gen)', 'fromdicts(gen,header)', 'join', 'distinct'):
+        for warm in ('cold', 'afterfull'):
+            out.append({'op': name, 'n': 2, 'b': 1, 'cache': True, 'fail': None, 'k': 2, 'warm': warm,
+                        'bound': 1 if quick else None, 'shared': True, 'cfgdefault': False})
     # every other sort-backed operator: explicit buffersize=1, and via the config default
     for name in OPS:
         if name in ('sort', 'sort(reverse)', 'sort(x)'):
